@@ -245,7 +245,7 @@ structure PS where
   deriving DecidableEq, Repr
 
 /-- schema of one deepObject property -/
-inductive DS | prim (p : PS) | arr (items : PS)
+inductive DS | prim (p : PS) | arr (items : PS) | obj (props : List (Str × PS)) (required : List Str)
   deriving DecidableEq, Repr
 
 inductive Leaf
@@ -260,7 +260,7 @@ inductive Sch
   deriving DecidableEq, Repr
 
 /-- value of one deepObject property -/
-inductive DV | p (v : PV) | a (xs : List (Option PV))
+inductive DV | p (v : PV) | a (xs : List (Option PV)) | o (kvs : List (Str × PV))
   deriving DecidableEq, Repr
 
 /-- decoded value. `nilObj` is Go's typed-nil `map[string]any` inside an interface: not `== nil` for
@@ -299,6 +299,8 @@ structure Req where
   query : List (Str × List Str) := []
   header : Option (List Str) := none
   cookie : Option Str := none
+  /-- PathParams holds other parameters (decodeStyledParameter's `len(input.PathParams) == 0` exit is not taken) -/
+  pathOthers : Bool := false
   deriving DecidableEq, Repr
 
 /-! ## shared decoder pieces -/
@@ -629,6 +631,20 @@ def allIdx : List (List Str × List Str) → Option (List (Nat × Str))
       | none => none
     | _, _ => none
 
+/-- buildResObj over the declared properties of a nested object `name[k][…]` (`ents`: the entries under `k`):
+a declared primitive property addressed any deeper is "not convertible to primitive"; undeclared keys are ignored -/
+def buildSub (prim : PT → Str → PR) (ents : List (List Str × List Str)) : List (Str × PS) → Option (List (Str × PV))
+  | [] => some []
+  | (k, ps) :: rest =>
+    if !(deepUnder k ents).isEmpty then none
+    else match deepScalar k ents with
+      | some [s] => match prim ps.t s with
+        | .err => none
+        | .nil => buildSub prim ents rest
+        | .val v => (buildSub prim ents rest).map ((k, v) :: ·)
+      | some _ => none
+      | none => buildSub prim ents rest
+
 /-- buildResObj for one declared property of a deepObject: none = ParseError, some none = not set -/
 def deepProp (prim : PT → Str → PR) (props : List (List Str × List Str)) (k : Str) : DS → Option (Option DV)
   | .prim ps =>
@@ -647,6 +663,13 @@ def deepProp (prim : PT → Str → PR) (props : List (List Str × List Str)) (k
       | ents => match allIdx ents with
         | none => none
         | some ie => (deepItems prim items.t ie (maxIdx (ie.map Prod.fst) + 1) 0).map (fun xs => some (.a xs))
+  | .obj sub _ =>
+    match deepScalar k props with
+    | some [s] => some (some (.p (.str s)))          -- not a map: "return it either way and leave validation up to ValidateParameter"
+    | some _ => none
+    | none => match deepUnder k props with
+      | [] => some none
+      | ents => (buildSub prim ents sub).map (fun kvs => some (.o kvs))
 
 def buildDeep (prim : PT → Str → PR) (props : List (List Str × List Str)) : List (Str × DS) → Option (List (Str × DV))
   | [] => some []
@@ -656,31 +679,48 @@ def buildDeep (prim : PT → Str → PR) (props : List (List Str × List Str)) :
     | some none => buildDeep prim props rest
     | some (some v) => (buildDeep prim props rest).map ((k, v) :: ·)
 
-/-- makeObject's own errors: a key with several values; a property used both as a value and as an object -/
+/-- strict prefix on segment lists -/
+def segPrefix : List Str → List Str → Bool
+  | [], _ :: _ => true
+  | a :: as, b :: bs => a = b && segPrefix as bs
+  | _, _ => false
+
+/-- makeObject's own errors: a key with several values; a path used both as a value and as an object (deepSet) -/
 def deepClash (props : List (List Str × List Str)) : Bool :=
   props.any (fun kv => kv.2.length ≠ 1) ||
-  props.any (fun kv => match kv.1 with
-    | [p] => !(deepUnder p props).isEmpty
-    | _ => false)
+  props.any (fun a => props.any (fun b => segPrefix a.1 b.1))
 
-/-- The model covers deepObject requests with at most two bracket segments per key and canonical decimal
-array indexes (`deepSupported`); other shapes are not generated. -/
+def distinctSegs : List (List Str × List Str) → Bool
+  | [] => true
+  | kv :: rest => !rest.any (fun x => x.1 = kv.1) && distinctSegs rest
+
+/-- The model covers deepObject requests with at most three bracket segments per key, canonical decimal
+array indexes and pairwise different segment lists (`deepSupported`); other shapes are not generated. -/
 def deepSupportedKey (sprops : List (Str × DS)) : List Str × List Str → Bool
   | ([_], _) => true
-  | ([p, i], _) => match sprops.lookup p with
+  | (p :: i :: rest, _) => rest.length ≤ 1 && (match sprops.lookup p with
     | some (.arr _) => (natIndex i).isSome
-    | _ => true
+    | _ => true)
   | _ => false
 
 def deepSupported (name : Str) (r : Req) (sprops : List (Str × DS)) : Bool :=
-  (deepProps name r.query).all (deepSupportedKey sprops)
+  (deepProps name r.query).all (deepSupportedKey sprops) && distinctSegs (deepProps name r.query)
+
+/-- deepGet(val, segs…) succeeds -/
+def dvGet (val : List (Str × DV)) : List Str → Bool
+  | [] => false
+  | p :: rest => match val.lookup p with
+    | none => false
+    | some (.o kvs) => (match rest with
+      | [] => true
+      | k :: _ => hasKey k kvs)
+    | some _ => true
 
 /-- `found`: some declared property, and some key that names a declared property or resolves in the result -/
 def deepFound (sprops : List (Str × DS)) (props : List (List Str × List Str)) (val : List (Str × DV)) : Bool :=
-  !sprops.isEmpty && props.any (fun kv => match kv.1 with
-    | [p] => hasKey p sprops || hasKey p val
-    | p :: _ => hasKey p val
-    | [] => false)
+  !sprops.isEmpty && props.any (fun kv => (match kv.1 with
+    | [p] => hasKey p sprops
+    | _ => false) || dvGet val kv.1)
 
 def queryDeep (prim : PT → Str → PR) (name : Str) (r : Req) (sprops : List (Str × DS)) : Out :=
   match deepProps name r.query with
@@ -695,6 +735,7 @@ def dvPrims : List (Str × DV) → List (Str × PV)
   | [] => []
   | (k, .p v) :: rest => (k, v) :: dvPrims rest
   | (_, .a _) :: rest => dvPrims rest
+  | (_, .o _) :: rest => dvPrims rest
 
 /-- a flat object schema under style deepObject (additionalProperties schema: not modelled, not generated) -/
 def queryDeepFlat (prim : PT → Str → PR) (name : Str) (r : Req) (sprops : List (Str × PS)) : Out :=
@@ -790,7 +831,7 @@ def decodeLeaf (fl : Flavour) (c : Cell) (name : Str) (r : Req) : Leaf → Out
 /-- decodeStyledParameter's early exits: empty PathParams / empty query -/
 def earlyAbsent (c : Cell) (r : Req) : Bool :=
   match c.loc with
-  | .path => r.path.isNone
+  | .path => r.path.isNone && !r.pathOthers
   | .query => r.query.isEmpty
   | _ => false
 
@@ -921,6 +962,11 @@ def visitDS (hit : EV → PV → Bool) : DS → DV → Bool
   | .arr items, .a xs => xs.all (fun x => match x with
       | none => false       -- a hole is `nil`: rejected by every typed, non-nullable item schema
       | some v => visitPS hit items v)
+  | .obj sub req, .o kvs =>
+    req.all (fun k => hasKey k kvs) &&
+    kvs.all (fun kv => match sub.lookup kv.1 with
+      | some ps => visitPS hit ps kv.2
+      | none => true)
   | _, _ => false
 
 /-- validation verdict of a leaf schema on a decoded value (`hit`, `arrEq`: how enums compare) -/
@@ -1095,7 +1141,8 @@ def leafEnumGoType : Leaf → Bool
   | .prim ps => psEnumInt32 ps
   | .arr items _ _ enum => psEnumInt32 items || (!enum.isEmpty && psIsInt items)
   | .obj sprops _ addl => sprops.any (fun kv => psEnumInt32 kv.2) || (match addl with | some a => psEnumInt32 a | none => false)
-  | .deep sprops _ => sprops.any (fun kv => match kv.2 with | .prim ps => psEnumInt32 ps | .arr it => psEnumInt32 it)
+  | .deep sprops _ => sprops.any (fun kv => match kv.2 with
+    | .prim ps => psEnumInt32 ps | .arr it => psEnumInt32 it | .obj sub _ => sub.any (fun x => psEnumInt32 x.2))
 
 def EnumGoType (p : Param) : Bool := (schLeaves p.schema).any leafEnumGoType
 
@@ -1151,7 +1198,9 @@ def encodableObj (c : Cell) (name : Str) (kvs : List (Str × Str)) : Bool :=
   !kvs.isEmpty && distinctKeys kvs && kvs.all (fun kv => !kv.1.isEmpty && !kv.2.isEmpty) &&
   (match objDelims c name with
    | some (pd0 :: _, vd0 :: _) => kvs.all (fun kv => freeOf pd0 kv.1 && freeOf pd0 kv.2 && freeOf vd0 kv.1 && freeOf vd0 kv.2)
-   | _ => kvs.all (fun kv => freeOf '[' kv.1 && freeOf ']' kv.1))
+   | _ => kvs.all (fun kv => freeOf '[' kv.1 && freeOf ']' kv.1)) &&
+  -- deepObject: a '[' inside the parameter name would be read as the start of the first segment
+  (c.style != .deepObject || freeOf '[' name)
 
 def encodable (c : Cell) (name : Str) : Texts → Bool
   | .prim s => !s.isEmpty
